@@ -21,7 +21,7 @@ import random
 import z3
 
 from pyvc.values import *  # noqa
-from pyvc.engine import World, ClassSpec, select_store
+from pyvc.engine import World, ClassSpec, LoopSpec, select_store
 from pyvc.runner import Spec
 from .base import contract, TxModels, inline
 from .classes import message_classes
@@ -33,6 +33,7 @@ B, BP, M = 'Bus', 'BusProtocol', 'DBusMessage'
 def routeMessage(self, m): pass
 def handleMethodCallMessage(self, msg): pass
 def loseConnection(self): pass
+def delMatch(self, rule_id): pass
 
 
 def build_world():
@@ -41,12 +42,12 @@ def build_world():
     message_classes(w)
     add_validator_contracts(w)
     add_constructor_contracts(w)
-    w.add_class(ClassSpec('Router', None, {'g_routed': INT, 'g_lastrouted': Ref(M)}, methods={'routeMessage': routeMessage}))
+    w.add_class(ClassSpec('Router', None, {'g_routed': INT, 'g_lastrouted': Ref(M), 'g_deleted': ListT(INT)}, methods={'routeMessage': routeMessage, 'delMatch': delMatch}))
     w.add_class(ClassSpec('Handler', None, {'g_handled': INT}, methods={'handleMethodCallMessage': handleMethodCallMessage}))
     w.add_class(ClassSpec('Transport', None, {'g_closed': BOOL}, methods={'loseConnection': loseConnection}))
     w.add_class(ClassSpec(BP, bus.BusProtocol, {
         'uniqueName': Opt(STR), '_called_hello': BOOL, 'bus': Ref(B), 'transport': Ref('Transport'), '_receivedFDs': OPAQUE,
-        'g_nrecv': INT, 'g_lastrecv': Ref(M)}))
+        'g_nrecv': INT, 'g_lastrecv': Ref(M), 'matchRules': ListT(INT), 'busNames': DictT(STR, BOOL)}))
     w.add_class(ClassSpec(B, bus.Bus, {
         'clients': DictT(STR, Ref(BP)), 'busNames': DictT(STR, ListT(Ref(BP))), 'router': Ref('Router'),
         'obj_handler': Ref('Handler'), 'next_id': INT, 'g_received': INT}))
@@ -171,6 +172,55 @@ def build_world():
     contract(w, 'txdbus.bus.Bus.clientConnected', {'self': Ref(B), 'proto': Ref(BP)},
              requires=lambda cx: [('counter-positive', cx.old(cx.args['self']).next_id >= 1)], ensures=conn_post,
              modifies=lambda cx: [(cx.args['self'], B + '.clients'), (cx.args['self'], B + '.next_id'), (cx.args['proto'], BP + '.uniqueName')])
+
+    # ---- clientDisconnected: the rules of the connection are removed, its names released, its entry dropped - and the
+    #      unique-name counter is not touched (a name is never reused)
+    contract(w, 'iface.Router.delMatch', {'self': Ref('Router'), 'rule_id': INT}, fn=delMatch,
+             modifies=lambda cx: [(cx.args['self'], 'Router.g_deleted')],
+             ensures=lambda cx: [('removed', cx.new(cx.args['self']).g_deleted.seqs[0] == z3.Concat(cx.old(cx.args['self']).g_deleted.seqs[0], z3.Unit(cx.a('rule_id'))))],
+             assumed=True)
+    contract(w, 'txdbus.bus.Bus.dbus_ReleaseName', {'self': Ref(B), 'name': STR, 'dbusCaller': Opt(STR)}, result=INT,
+             modifies=lambda cx: [(cx.args['self'], B + '.busNames'), ('*', BP + '.busNames'), ('*', BP + '.g_nrecv'), ('*', BP + '.g_lastrecv')],
+             raises={Exception: lambda cx: z3.BoolVal(True)}, may_raise_any=True, assumed=True)
+
+    def disc_post(cx):
+        s, pr = cx.args['self'], cx.args['proto']
+        o, n = cx.old(s), cx.new(s)
+        po = cx.old(pr)
+        r = VRef(o.router, 'Router')
+        named = z3.And(z3.Not(po.uniqueName.none), po.uniqueName.val.term != sv(''))
+        return [('every match rule of the connection is removed from the router, once, in order',
+                 cx.new(r).g_deleted.seqs[0] == z3.Concat(cx.old(r).g_deleted.seqs[0], po.matchRules.seqs[0])),
+                ('the connection leaves the client table; no other entry changes',
+                 z3.If(named, z3.And(n.clients.dom == z3.Store(o.clients.dom, po.uniqueName.val.term, False), n.clients.vals[0] == o.clients.vals[0]),
+                       z3.And(n.clients.dom == o.clients.dom, n.clients.vals[0] == o.clients.vals[0])))]
+
+    def disc_inv1(cx):
+        s, pr = cx.args['self'], cx.args['proto']
+        o = cx.old(s)
+        r = VRef(o.router, 'Router')
+        lst = cx.L['_seq1'].seqs[0]
+        k = cx.l('_k1')
+        pre, suf = cx.ctx.prefix_of(lst, k)
+        cx.ctx.prefix_of(lst, k + 1)
+        return [('removed-so-far', cx.new(r).g_deleted.seqs[0] == z3.Concat(cx.old(r).g_deleted.seqs[0], pre)),
+                ('rules-being-removed', lst == cx.old(pr).matchRules.seqs[0]),
+                ('tables-untouched', cx.unchanged(B + '.clients', B + '.next_id', B + '.router', BP + '.uniqueName', BP + '.matchRules'))]
+
+    def disc_inv2(cx):
+        s, pr = cx.args['self'], cx.args['proto']
+        o = cx.old(s)
+        r = VRef(o.router, 'Router')
+        return [('rules-removed', cx.new(r).g_deleted.seqs[0] == z3.Concat(cx.old(r).g_deleted.seqs[0], cx.old(pr).matchRules.seqs[0])),
+                ('tables-untouched', cx.unchanged(B + '.clients', B + '.next_id', B + '.router', BP + '.uniqueName', BP + '.matchRules'))]
+
+    contract(w, 'txdbus.bus.Bus.clientDisconnected', {'self': Ref(B), 'proto': Ref(BP)},
+             requires=lambda cx: [('a named connection is in the client table', z3.Implies(z3.And(z3.Not(cx.old(cx.args['proto']).uniqueName.none), cx.old(cx.args['proto']).uniqueName.val.term != sv('')),
+                                                                                        z3.Select(cx.old(cx.args['self']).clients.dom, cx.old(cx.args['proto']).uniqueName.val.term)))],
+             ensures=disc_post,
+             modifies=lambda cx: [(cx.args['self'], B + '.clients'), (cx.args['self'], B + '.busNames'), ('*', 'Router.g_deleted'), ('*', BP + '.busNames'), ('*', BP + '.g_nrecv'), ('*', BP + '.g_lastrecv')],
+             raises={Exception: lambda cx: z3.BoolVal(True)}, may_raise_any=True,
+             loops={1: LoopSpec(invariant=disc_inv1, ghost_index='_k1'), 2: LoopSpec(invariant=disc_inv2, ghost_index='_k2')})
 
     def raw_post(cx):
         s = cx.args['self']
@@ -589,7 +639,7 @@ def build(tier='quick'):
                                              'errorMessage': VStr(msg) if I.ctx.branch(has) else VNone()})
             return super().contract_exception(I, cls)
     return Spec('C14', w, lambda world: Models14(world),
-                ['txdbus.bus.Bus.sendMessage', 'txdbus.bus.Bus.messageReceived', 'txdbus.bus.Bus.clientConnected',
+                ['txdbus.bus.Bus.sendMessage', 'txdbus.bus.Bus.messageReceived', 'txdbus.bus.Bus.clientConnected', 'txdbus.bus.Bus.clientDisconnected',
                  'txdbus.bus.BusProtocol.rawDBusMessageReceived'],
                 replay=replay, bounded=[{'name': 'bus-histories', 'run': run_bounded}],
                 trusted=['dict = array + domain; queues = Seq(Ref); int -> decimal string by z3 int.to.str (injective on naturals)'],
